@@ -274,11 +274,199 @@ theorem every_prefix_valid {le : α → α → Prop} (hO : DomOrd D le) (parent 
   simp only [runBatch]
   apply prefix_append (Valid parent le) s.files _ _ a
   intro k'
-  have a1' : applyWrites s.files (pass1 D exp levels.flatten { s with skip := [] }).2 =
+  have a1' : applyWrites s.files (runPass (step1 D exp) levels.flatten { s with skip := [] }).2 =
       (pass1 D exp levels.flatten { s with skip := [] }).1.files := a1
   rw [a1']
   exact b k'
 
+/-- a history of batches, each with its intended assignment: batch i+1 starts from the target of batch i. -/
+def HistOK (parent : Nat → Option Nat) (le : α → α → Prop) :
+    (Nat → α) → List ((Bool × List (List (Upd α))) × (Nat → α)) → Prop
+  | _, [] => True
+  | old, b :: bs => BatchOK b.1.2 old b.2 ∧ Levelled parent b.1.2 ∧ Valid parent le b.2 ∧ HistOK parent le b.2 bs
+
+/-- **history_every_prefix_valid**: over any history of rewrites on the same executor (the cache carried
+    from batch to batch), starting from a consistent cache and a valid hierarchy, every prefix of the
+    concatenated write sequence leaves a valid hierarchy, and the cache stays consistent. -/
+theorem history_every_prefix_valid {le : α → α → Prop} (hO : DomOrd D le) (parent : Nat → Option Nat) :
+    ∀ (hs : List ((Bool × List (List (Upd α))) × (Nat → α))) (s : St α), CacheOK s → Valid parent le s.files →
+      HistOK parent le s.files hs →
+      CacheOK (runHistory D (hs.map (·.1)) s).1 ∧
+      applyWrites s.files (runHistory D (hs.map (·.1)) s).2 = (runHistory D (hs.map (·.1)) s).1.files ∧
+      ∀ k, Valid parent le (applyWrites s.files ((runHistory D (hs.map (·.1)) s).2.take k)) := by
+  intro hs
+  induction hs with
+  | nil => intro s hc hv _; exact ⟨hc, rfl, fun k => by simpa [runHistory, applyWrites] using hv⟩
+  | cons b bs ih =>
+    intro s hc hv hh
+    obtain ⟨hb, hlev, htgt, hrest⟩ := hh
+    have hfin : (runBatch D b.1.1 b.1.2 s).1.files = b.2 :=
+      funext (final_is_target hD hm b.1.1 b.1.2 s b.2 hc hb)
+    have hc' := cache_consistent_after hD hm b.1.1 b.1.2 s b.2 hc hb
+    have hrep := writes_replay hD hm b.1.1 b.1.2 s b.2 hc hb
+    have hpre := every_prefix_valid hD hm b.1.1 b.1.2 s b.2 hO parent hc hb hlev hv htgt
+    obtain ⟨i1, i2, i3⟩ := ih (runBatch D b.1.1 b.1.2 s).1 hc' (by rw [hfin]; exact htgt) (by rw [hfin]; exact hrest)
+    simp only [List.map_cons, runHistory]
+    refine ⟨i1, ?_, ?_⟩
+    · rw [applyWrites_append, hrep]; exact i2
+    · apply prefix_append (Valid parent le) s.files _ _ hpre
+      intro k; rw [hrep]; exact i3 k
+
 end Main
+
+/-! ### the registered resources are instances -/
+
+/-- CPU-set containment on bitmasks. -/
+def subMask (a b : Nat) : Prop := a ||| b = b
+
+instance (a b : Nat) : Decidable (subMask a b) := inferInstanceAs (Decidable (a ||| b = b))
+
+theorem subMask_iff (a b : Nat) : subMask a b ↔ ∀ i, a.testBit i = true → b.testBit i = true := by
+  unfold subMask
+  constructor
+  · intro h i hi; rw [← h]; simp [hi]
+  · intro h; apply Nat.eq_of_testBit_eq; intro i
+    rw [Nat.testBit_or]
+    cases ha : a.testBit i
+    · simp
+    · simp [h i ha]
+
+/-- `a` no larger than `b`, reading -1 as unlimited. -/
+def limLe (a b : Int) : Prop := limKey a ≤ limKey b
+
+theorem cpusetDom_eq : DomEq cpusetDom where
+  mergeSelf a := by simp [cpusetDom]
+  same_eq c t h := by simpa [cpusetDom] using h
+  valEq_eq v t h := by simpa [cpusetDom] using h
+  after_eq t v h := by simp [cpusetDom] at h; exact h.symm
+  read_eq c v h := by simp [cpusetDom] at h; exact h.symm
+
+theorem cpuset_merge_true (o t : Nat) (h : (cpusetDom.merge o t).2 = true) :
+    (cpusetDom.merge o t).1 = t ||| o := by
+  simp only [cpusetDom] at h ⊢
+  split at h
+  · simp at h
+  · split at h
+    · simp at h
+    · next h1 h2 => simp only [h1, h2]; rfl
+
+theorem cpusetDom_ord : DomOrd cpusetDom subMask where
+  refl a := Nat.or_self a
+  trans a b c h1 h2 := by unfold subMask at *; rw [← h2, ← Nat.or_assoc, h1]
+  noMerge o t h := by
+    unfold subMask; simp only [cpusetDom] at h
+    split at h
+    · next e => simp at e; subst e; exact Nat.or_self _
+    · split at h
+      · next e => simpa using e
+      · simp at h
+  mergeOld o t h := by
+    unfold subMask; rw [cpuset_merge_true o t h, Nat.or_comm t o, ← Nat.or_assoc, Nat.or_self]
+  mergeNew o t h := by
+    unfold subMask; rw [cpuset_merge_true o t h, ← Nat.or_assoc, Nat.or_self]
+  mergeLub o t c h ho ht := by
+    unfold subMask at *; rw [cpuset_merge_true o t h, Nat.or_assoc, ho, ht]
+
+theorem limDom_eq : DomEq limDom where
+  mergeSelf a := by simp [limDom]
+  same_eq c t h := by simpa [limDom] using h
+  valEq_eq v t h := by simpa [limDom] using h
+  after_eq t v h := by simp [limDom] at h; exact h.symm
+  read_eq c v h := by simp [limDom] at h; exact h.symm
+
+theorem limDom_ord : DomOrd limDom limLe where
+  refl a := Int.le_refl _
+  trans a b c h1 h2 := Int.le_trans h1 h2
+  noMerge o t h := by simp [limDom] at h; exact h
+  mergeOld o t h := by simp [limDom] at h ⊢; unfold limLe; omega
+  mergeNew o t h := by simp [limDom]; exact Int.le_refl _
+  mergeLub o t c h ho ht := by simpa [limDom] using ht
+
+theorem cfsV2Dom_eq : DomEq cfsV2Dom where
+  mergeSelf a := by simp [cfsV2Dom, limDom]
+  same_eq c t h := by simp [cfsV2Dom] at h
+  valEq_eq v t h := by simpa [cfsV2Dom, limDom] using h
+  after_eq t v h := by
+    simp only [cfsV2Dom] at h
+    split at h
+    · simp at h
+    · simp at h; exact h.symm
+  read_eq c v h := by simp [cfsV2Dom] at h
+
+theorem cfsV2Dom_ord : DomOrd cfsV2Dom limLe where
+  refl a := Int.le_refl _
+  trans a b c h1 h2 := Int.le_trans h1 h2
+  noMerge o t h := by simp [cfsV2Dom, limDom] at h; exact h
+  mergeOld o t h := by simp [cfsV2Dom, limDom] at h ⊢; unfold limLe; omega
+  mergeNew o t h := by simp [cfsV2Dom, limDom]; exact Int.le_refl _
+  mergeLub o t c h ho ht := by simpa [cfsV2Dom, limDom] using ht
+
+/-- every hierarchical resource of the line protocol (cpu.cfs_quota_us, memory.min/low/high; both cgroup
+    versions) is covered by the theorems above; cpuset.cpus by `cpusetDom_eq/ord`. -/
+theorem hierarchical_resources_covered (res : Nat) (v2 : Bool) (D : Dom Int) (h : intDomOf res v2 = some D)
+    (hr : res ≠ 5) : D.mergeable = true ∧ DomEq D ∧ DomOrd D limLe := by
+  unfold intDomOf at h
+  split at h
+  · cases v2 <;> simp at h <;> subst h
+    · exact ⟨rfl, limDom_eq, limDom_ord⟩
+    · exact ⟨rfl, cfsV2Dom_eq, cfsV2Dom_ord⟩
+  · simp at h; subst h; exact ⟨rfl, limDom_eq, limDom_ord⟩
+  · simp at h; subst h; exact ⟨rfl, limDom_eq, limDom_ord⟩
+  · simp at h; subst h; exact ⟨rfl, limDom_eq, limDom_ord⟩
+  · exact absurd rfl hr
+  · simp at h
+
+/-- the no-rewrite clause needs a reflexive write-if-different comparison: true for CPU sets and for the
+    numeric files, false for cgroup-v2 cpu.max (kernel shows "<quota> <period>", koordlet writes "<quota>"). -/
+theorem same_refl_cpuset (a : Nat) : cpusetDom.same a a = true := by simp [cpusetDom]
+theorem same_refl_lim (a : Int) : limDom.same a a = true := by simp [limDom]
+theorem cfsV2_rewrites_unchanged_counterexample :
+    ¬ (∀ w ∈ (runBatch cfsV2Dom false [[{ node := 0, tgt := some 5000 }]]
+          { files := fun _ => 5000, cache := fun _ => none, skip := [] }).2, (5000 : Int) ≠ w.2) := by
+  decide
+
+/-! ### non-vacuity: a CPU-set *shift* on a 3-level tree (0 ← 1 ← 2, 0 ← 3) -/
+
+def exParent : Nat → Option Nat
+  | 1 => some 0 | 2 => some 1 | 3 => some 0 | _ => none
+def exOld : Nat → Nat := fun n => if n ≤ 3 then 3 else 0        -- every directory 0-1
+def exT : Nat → Nat := fun n => if n ≤ 3 then 12 else 0         -- every directory 2-3
+def exLevels : List (List (Upd Nat)) :=
+  [[{ node := 0, tgt := some 12 }], [{ node := 3, tgt := some 12 }, { node := 1, tgt := some 12 }], [{ node := 2, tgt := some 12 }]]
+def exS : St Nat := { files := exOld, cache := fun _ => none, skip := [] }
+
+example : (runBatch cpusetDom false exLevels exS).2 =
+    [(0, 15), (3, 15), (1, 15), (2, 15), (2, 12), (3, 12), (1, 12), (0, 12)] := by decide
+theorem ex_cacheOK : CacheOK exS := by intro n v h; simp [exS] at h
+theorem ex_batchOK : BatchOK exLevels exS.files exT where
+  tgt := by decide
+  out := by
+    intro n hn
+    have : ¬ n ≤ 3 := by
+      intro h; apply hn
+      have : n = 0 ∨ n = 1 ∨ n = 2 ∨ n = 3 := by omega
+      rcases this with h | h | h | h <;> subst h <;> decide
+    simp [exT, exS, exOld, this]
+  nodup := by decide
+theorem ex_levelled : Levelled exParent exLevels := by
+  refine ⟨?_, ?_⟩
+  · simp [exLevels, exParent]
+  · intro L hL a ha b hb
+    simp [exLevels] at hL
+    rcases hL with h | h | h <;> subst h <;> simp at ha hb
+    · subst ha; subst hb; simp [exParent]
+    · rcases ha with ha | ha <;> rcases hb with hb | hb <;> subst ha <;> subst hb <;> simp [exParent]
+    · subst ha; subst hb; simp [exParent]
+theorem ex_valid : Valid exParent subMask exS.files ∧ Valid exParent subMask exT := by
+  refine ⟨?_, ?_⟩ <;> intro c p h <;> unfold exParent at h <;> split at h <;> cases h <;> decide
+
+/-- all hypotheses of the main theorems hold on the shift example, so their conclusions apply to it. -/
+example : (∀ k, Valid exParent subMask (applyWrites exS.files ((runBatch cpusetDom false exLevels exS).2.take k))) ∧
+    (∀ n, (runBatch cpusetDom false exLevels exS).1.files n = exT n) ∧
+    (∀ w ∈ (runBatch cpusetDom false exLevels exS).2, exS.files w.1 ≠ exT w.1) :=
+  ⟨every_prefix_valid cpusetDom_eq rfl false exLevels exS exT cpusetDom_ord exParent ex_cacheOK ex_batchOK ex_levelled
+      ex_valid.1 ex_valid.2,
+   final_is_target cpusetDom_eq rfl false exLevels exS exT ex_cacheOK ex_batchOK,
+   no_redundant_write cpusetDom_eq rfl false exLevels exS exT same_refl_cpuset ex_cacheOK ex_batchOK⟩
 
 end KoordVerif.C12
